@@ -554,12 +554,12 @@ fn build_function(function: &Function) -> Result<proc_macro2::TokenStream, anyho
     let function_body = match &function.body {
         FunctionBody::Address { address } => {
             let address = hex_literal(*address);
+            // No local binding for the function pointer: it could shadow an argument of the same name.
             quote! {
-                let f:
-                    unsafe extern #calling_convention
-                    fn(#(#lambda_arguments),*) #return_type
-                = ::std::mem::transmute(#address as usize);
-                f(#(#call_arguments),*)
+                (::std::mem::transmute::<
+                    usize,
+                    unsafe extern #calling_convention fn(#(#lambda_arguments),*) #return_type
+                >(#address as usize))(#(#call_arguments),*)
             }
         }
         FunctionBody::Field {
@@ -575,8 +575,7 @@ fn build_function(function: &Function) -> Result<proc_macro2::TokenStream, anyho
         FunctionBody::Vftable { function_name } => {
             let function_to_call_name = str_to_ident(function_name);
             quote! {
-                let f = std::ptr::addr_of!((*self.vftable()).#function_to_call_name).read();
-                f(#(#call_arguments),*)
+                (std::ptr::addr_of!((*self.vftable()).#function_to_call_name).read())(#(#call_arguments),*)
             }
         }
     };
